@@ -1,4 +1,5 @@
 """C11 -- the geometrical correction factor rescales the modulus only."""
+import copy
 import math
 import warnings
 
@@ -294,6 +295,65 @@ def fitter_reuse_cases(run):
                             payload={"kind": "rerun"}, theorem="C11_unscale")
 
 
+def curve_history_cases(run):
+    """one curve fitted with a correction factor, then only the factor is
+    changed (through fit_model and through the stored settings) and the curve
+    fitted again: modulus, contact point and interval are those of a fresh
+    curve fitted with that factor (for every exponent)"""
+    from nanite import model
+    for mk in ("hertz_para", "hertz_cone", "hertz_pyr3s",
+               "sneddon_spher_approx"):
+        true = fits.default_params(mk, contact_point=2e-7, E=4000.0,
+                                   baseline=1e-11)
+        cols = fits.model_curve(mk, true, n_app=150, n_ret=70)
+        span = float(np.ptp(cols["tip position"]))
+        for via in ("fit_model", "setting"):
+            cfg = {"curve-history": mk, "via": via}
+            key = f"curve-history:{mk}:{via}"
+            run.case(cfg, kind="curve-history")
+            why = None
+            try:
+                with warnings.catch_warnings():
+                    warnings.simplefilter("ignore")
+                    p = model.models_available[mk].get_parameter_defaults()
+                    p["contact_point"].set(value=2.5e-7)
+                    kw = dict(model_key=mk, params_initial=p, weight_cp=0,
+                              range_x=[-1.5e-6, 1e-6])
+                    idnt = curves.make_indentation(cols)
+                    idnt.fit_model(gcf_k=1.0, **copy.deepcopy(kw))
+                    for k in (0.5, 2.0, 1.0, 0.25):
+                        if via == "fit_model":
+                            idnt.fit_model(gcf_k=k)
+                        else:
+                            idnt.fit_properties["gcf_k"] = k
+                            idnt.fit_model()
+                        fresh = curves.make_indentation(cols)
+                        fresh.fit_model(gcf_k=k, **copy.deepcopy(kw))
+                        a, b = idnt.fit_properties, fresh.fit_properties
+                        if not (a.get("success") and b.get("success")):
+                            why = (f"k = {k}: success {a.get('success')} / "
+                                   f"{b.get('success')}")
+                            break
+                        pa, pb = a["params_fitted"], b["params_fitted"]
+                        dE = abs(pa["E"].value / pb["E"].value - 1)
+                        dc = abs(pa["contact_point"].value
+                                 - pb["contact_point"].value) / span
+                        if dE > 1e-6 or dc > 1e-6 or a["hash"] != b["hash"]:
+                            why = (f"after changing only the factor to {k} "
+                                   f"the curve reports E {pa['E'].value!r} "
+                                   f"(hash {a['hash'][:8]}), a fresh curve "
+                                   f"fitted with that factor "
+                                   f"{pb['E'].value!r} (hash "
+                                   f"{b['hash'][:8]})")
+                            break
+            except BaseException as e:
+                why = f"raised {type(e).__name__}: {e}"
+            if why:
+                run.failing(SITE, key, f"{cfg}: {why}",
+                            payload={"kind": "rerun"},
+                            theorem="C11_objective_equiv_*")
+
+
 def check(run):
     run.sources = common.source_digests(["src/nanite/fit.py"])
     try:
@@ -375,6 +435,7 @@ def check(run):
         one_case(run, cfg)
     failed_then_refit_cases(run)
     fitter_reuse_cases(run)
+    curve_history_cases(run)
     run.rule = ("metamorphic fits k vs 1 on synthetic power-law curves "
                 "(noise-free: 1e-6; noisy with weighting off: 5e-3) x three "
                 "range types x segments x initial contact points; every "
